@@ -1,6 +1,7 @@
 """C11: real Parser.check_alignment / validate_msg_def on field sequences with symbolic array lengths.
 
-shard: fields = list of [kind, width, arr]   kind: "n" native, "a" alias of a native, "s" nested struct (size = width * m)
+shard: fields = list of [kind, width, arr]   kind: "n" native, "a" alias of a native, "s" nested struct (size = width * m),
+                                              "as" alias of such a struct (an alias of a struct read from an imported file)
                                               width: 1 | 2 | 4 | 8 (natural alignment), arr: 0 scalar | 1 array
        auto_pad: 1 | 0
 symbolic: array length of each field (1..70000), size multiplier m of each nested struct (1..9000)
@@ -62,6 +63,8 @@ def build(lens, ms):
             inner.fields.append(P.Field("x", NATIVE[width], nat, length=ms[k]))   # size = width * m, alignment = width
             inner.alignment = width
             tobj, tname = inner, "S%d" % k
+            if kind == "as":
+                tobj, tname = P.TypeAlias("AS%d" % k, "S%d" % k, inner, pathlib.Path("x.yaml")), "AS%d" % k
         f = P.Field("f%d" % k, tname, tobj)
         if arr:
             f.length = lens[k]
@@ -70,10 +73,35 @@ def build(lens, ms):
     return fields
 
 
+def reference(lens, ms):
+    """(size, natural alignment) of each user field, from the descriptor alone - not from the parser's own size/alignment
+    properties, which are part of what is being checked"""
+    out = []
+    for k, (kind, width, arr) in enumerate(sh("fields")):
+        elem = width * (ms[k] if kind in ("s", "as") else 1)
+        out.append((elem * (lens[k] if arr else 1), width))
+    return out
+
+
 def scenario(l0, l1, l2, l3, m0, m1, m2, m3):
     lens, ms = [l0, l1, l2, l3], [m0, m1, m2, m3]
     auto = bool(sh("auto_pad", 1))
     user = build(lens, ms)
+    ref = reference(lens, ms)
+    for f, (rs, ra) in zip(user, ref):
+        if f.size != rs or f.alignment != ra:
+            return False, "the compiler's model gives field %s (%s) size %s / alignment %s; a C compiler gives %s / %s" % (f.name, f.type_name, f.size, f.alignment, rs, ra)
+    # does a C compiler need padding for these user fields as they stand?
+    roff, rmx, c_needs = 0, 1, False
+    for rs, ra in ref:
+        if roff % ra != 0:
+            c_needs = True
+            roff += ra - roff % ra
+        roff += rs
+        if ra > rmx:
+            rmx = ra
+    if roff % rmx != 0:
+        c_needs = True
     s = P.MDF("", "", "M", 1, pathlib.Path("x.yaml"))
     s.fields = list(user)
     p = Quiet(auto)
@@ -94,6 +122,8 @@ def scenario(l0, l1, l2, l3, m0, m1, m2, m3):
         except Exception as e:
             return False, "padded variant raised %s" % type(e).__name__
         needs_padding = len(s2.fields) != len(user2)
+        if needs_padding != c_needs:
+            return False, "the compiler pads a definition that %s padding for a C compiler" % ("needs" if c_needs else "needs no")
         if isinstance(exc, P.AlignmentError) != needs_padding:
             return False, "auto_pad off: AlignmentError=%s but the definition %s padding" % (isinstance(exc, P.AlignmentError), "needs" if needs_padding else "needs no")
         if isinstance(exc, P.AlignmentError):
@@ -116,12 +146,22 @@ def scenario(l0, l1, l2, l3, m0, m1, m2, m3):
         return False, "a user field was dropped or reordered"
     off = 0
     mx = 1
+    j = 0
     for f in fields:
-        if off % f.alignment != 0:
+        if j < len(user) and f is user[j]:
+            fs, fa = ref[j]
+            j += 1
+        else:
+            fs, fa = (f.length or 1), 1        # an inserted char padding
+        if off % fa != 0:
             return False, "field %s starts at an offset that is not a multiple of its alignment" % f.name
-        off += f.size
-        if f.alignment > mx:
-            mx = f.alignment
+        if f.size != fs or f.alignment != fa:
+            return False, "field %s: recorded size/alignment differ from the C compiler's" % f.name
+        off += fs
+        if fa > mx:
+            mx = fa
+    if auto and not c_needs and len(fields) != len(user):
+        return False, "padding inserted into a definition that needs none"
     if off % mx != 0:
         return False, "struct size is not a multiple of its strictest member alignment"
     if s.size != off or c_layout(fields)[0] != off:
@@ -152,7 +192,7 @@ def _pre(l0, l1, l2, l3, m0, m1, m2, m3):
     lens, ms = [l0, l1, l2, l3], [m0, m1, m2, m3]
     for k in range(4):
         used_len = k < len(spec) and spec[k][2]
-        used_m = k < len(spec) and spec[k][0] == "s"
+        used_m = k < len(spec) and spec[k][0] in ("s", "as")
         if used_len:
             if not (1 <= lens[k] <= 70000):
                 return False
